@@ -189,6 +189,14 @@ def impl(case):
                 obj = di.GeoJSON(**dict(items))
             else:
                 obj = di.DataFrame(**data)
+            from harness import warm
+            if warm.ENABLED:
+                # an object with a history (harness/warm.py) that is, in addition, grouped: `group_by` marks the
+                # receiver, and a grouped frame / GeoJSON must render like any other (fixed 94faf51)
+                warm.frame_through_history(obj, skip=("geometry",))
+                names = [k for k in obj.colnames if k != "geometry"]
+                if names:
+                    obj.group_by(names[0])
             before = snap(obj)
             kw = {k: case[k] for k in ("max_rows", "max_width", "truncate_width") if case[k] is not None}
             try:
